@@ -17,6 +17,7 @@ import psutil  # noqa: E402
 from psutil import _common, _pslinux, _psposix  # noqa: E402
 
 MODS = (psutil, _common, _pslinux, _psposix)
+MAIN = MODS
 
 
 def oserr(code, path=None):
@@ -290,10 +291,16 @@ class Kernel:
 
     # ---- install ------------------------------------------------------------------------
     @contextlib.contextmanager
-    def installed(self, full=True, extra=()):
+    def installed(self, full=True, extra=(), pkg=None):
         """Replace psutil's module-level OS names by the simulated kernel for the duration of one path.
-        `extra` = further (module, name, value) patches.  Shadows (int/float/max/...) only in symbolic mode."""
+        `extra` = further (module, name, value) patches.  Shadows (int/float/max/...) only in symbolic mode.
+        `pkg` = an alias copy of the package (see psv.plat) to install into instead of the main one."""
         k = self
+        if pkg is None:
+            psutil, _common, _pslinux, _psposix = MAIN
+        else:
+            psutil, _common, _pslinux, _psposix = pkg, pkg._common, pkg._pslinux, pkg._psposix
+        MODS = (psutil, _common, _pslinux, _psposix)
         os_proxy = OsProxy(k)
         k.os_proxy = os_proxy
         _MISSING = object()
@@ -318,7 +325,7 @@ class Kernel:
             setattr(m, name, val)
         if getattr(k.ctx, "symbolic", False):
             k.shadows.install(*MODS)
-        self._clear_caches()
+        self._clear_caches(_common, _pslinux, _psposix)
         try:
             yield k
         finally:
@@ -330,10 +337,10 @@ class Kernel:
                         delattr(m, name)
                 else:
                     setattr(m, name, old)
-            self._clear_caches()
+            self._clear_caches(_common, _pslinux, _psposix)
 
     @staticmethod
-    def _clear_caches():
+    def _clear_caches(_common, _pslinux, _psposix):
         _psposix.get_terminal_map.cache_clear()
         _pslinux.set_scputimes_ntuple.cache_clear()
         _common._wn.cache_clear()
